@@ -162,6 +162,32 @@ type clientStreamWrapper struct {
 	grpc.ClientStream
 }
 
+// The finalizer set in NewStream cancels the stream once the wrapper is
+// unreachable. During a call of a promoted method the wrapper itself is no
+// longer referenced (only the embedded stream is), so a garbage collection
+// while the caller's last RecvMsg is blocked would cancel the call under it.
+// These methods keep the wrapper alive for the duration of the operation.
+
+func (w *clientStreamWrapper) Header() (metadata.MD, error) {
+	defer runtime.KeepAlive(w)
+	return w.ClientStream.Header()
+}
+
+func (w *clientStreamWrapper) CloseSend() error {
+	defer runtime.KeepAlive(w)
+	return w.ClientStream.CloseSend()
+}
+
+func (w *clientStreamWrapper) SendMsg(m interface{}) error {
+	defer runtime.KeepAlive(w)
+	return w.ClientStream.SendMsg(m)
+}
+
+func (w *clientStreamWrapper) RecvMsg(m interface{}) error {
+	defer runtime.KeepAlive(w)
+	return w.ClientStream.RecvMsg(m)
+}
+
 func getPeer(baseUrl *url.URL, tls *tls.ConnectionState) *peer.Peer {
 	hostPort := baseUrl.Host
 	if !strings.Contains(hostPort, ":") {
